@@ -35,7 +35,8 @@ func openEnv(dir string) *env {
 	// small buffers only: a store with default options allocates tens of MB per index and per open
 	iopts := store.DefaultIndexOptions().WithCacheSize(64).WithFlushBufferSize(1 << 16).WithMaxActiveSnapshots(16)
 	st, err := store.Open(dir, store.DefaultOptions().WithMultiIndexing(true).WithSynced(false).
-		WithMaxTxEntries(128).WithMaxConcurrency(4).WithWriteBufferSize(1<<16).WithTxLogCacheSize(16).
+		WithMaxTxEntries(128).WithMaxConcurrency(4).WithMVCCReadSetLimit(1<<30). // thousands of queries run inside one open transaction
+		WithWriteBufferSize(1<<16).WithTxLogCacheSize(16).
 		WithMaxKeyLen(256).WithMaxValueLen(1024).WithIndexOptions(iopts).
 		WithAHTOptions(store.DefaultAHTOptions().WithWriteBufferSize(1<<16)).
 		WithLogger(logger.NewSimpleLoggerWithLevel("c11", io.Discard, logger.LogError)))
